@@ -25,6 +25,128 @@ use serde::{Deserialize, Serialize};
 use std::collections::BTreeMap;
 use std::path::Path;
 
+/// A user-defined filter kind registered with the deserializers (`kind: verif_at`, keys `level`, `response`): answers
+/// `response` (accept / reject) for records of exactly `level` and Neutral otherwise. Unlike chains of threshold
+/// filters, chains containing these are order-sensitive.
+#[derive(Debug)]
+pub struct AtFilter {
+    pub level: log::Level,
+    pub accept: bool,
+}
+
+impl log4rs::filter::Filter for AtFilter {
+    fn filter(&self, record: &log::Record) -> log4rs::filter::Response {
+        if record.level() == self.level {
+            if self.accept {
+                log4rs::filter::Response::Accept
+            } else {
+                log4rs::filter::Response::Reject
+            }
+        } else {
+            log4rs::filter::Response::Neutral
+        }
+    }
+}
+
+#[derive(serde::Deserialize)]
+#[serde(deny_unknown_fields)]
+pub struct AtFilterConfig {
+    level: String,
+    response: String,
+}
+
+pub struct AtFilterDeserializer;
+
+impl log4rs::config::Deserialize for AtFilterDeserializer {
+    type Trait = dyn log4rs::filter::Filter;
+    type Config = AtFilterConfig;
+    fn deserialize(&self, c: AtFilterConfig, _: &Deserializers) -> anyhow::Result<Box<dyn log4rs::filter::Filter>> {
+        let level: log::Level = c.level.parse().map_err(|_| anyhow::anyhow!("verif_at: bad level {:?}", c.level))?;
+        let accept = match c.response.as_str() {
+            "accept" => true,
+            "reject" => false,
+            other => anyhow::bail!("verif_at: bad response {:?}", other),
+        };
+        Ok(Box::new(AtFilter { level, accept }))
+    }
+}
+
+/// The library's default deserializers plus the user-defined filter kind.
+pub fn deserializers() -> Deserializers {
+    let mut d = Deserializers::default();
+    d.insert("verif_at", AtFilterDeserializer);
+    d
+}
+
+/// Filter codes: 0-5 threshold at LEVEL_FILTERS[f]; 6-10 accept records of exactly LEVELS[f-6]; 11-15 reject them.
+pub enum FilterCode {
+    Threshold(log::LevelFilter),
+    At(log::Level, bool),
+}
+
+pub fn filter_code(f: u8) -> FilterCode {
+    let f = f % 16;
+    if f < 6 {
+        FilterCode::Threshold(LEVEL_FILTERS[f as usize])
+    } else if f < 11 {
+        FilterCode::At(LEVELS[(f - 6) as usize], true)
+    } else {
+        FilterCode::At(LEVELS[(f - 11) as usize], false)
+    }
+}
+
+pub fn has_custom_filter(lc: &LC) -> bool {
+    lc.apps.iter().any(|a| a.filters.iter().any(|f| f % 16 >= 6))
+}
+
+/// Reference: filters in declaration order, first Accept delivers, first Reject drops, all Neutral delivers.
+pub fn chain_passes(filters: &[u8], dropped: &[usize], level: log::Level) -> bool {
+    for (i, f) in filters.iter().enumerate() {
+        if dropped.contains(&i) {
+            continue;
+        }
+        match filter_code(*f) {
+            FilterCode::Threshold(t) => {
+                if level > t {
+                    return false;
+                }
+            }
+            FilterCode::At(l, accept) => {
+                if level == l {
+                    return accept;
+                }
+            }
+        }
+    }
+    true
+}
+
+fn filter_doc(f: u8, style: u64) -> DV {
+    match filter_code(f) {
+        FilterCode::Threshold(_) => DV::map(vec![("kind", DV::s("threshold")), ("level", DV::Str(level_word(f % 16, style)))]),
+        FilterCode::At(l, accept) => {
+            let w = l.to_string();
+            let w = match style % 3 {
+                0 => w.to_lowercase(),
+                1 => w.to_uppercase(),
+                _ => w,
+            };
+            let mut v = vec![("kind", DV::s("verif_at")), ("level", DV::Str(w)), ("response", DV::s(if accept { "accept" } else { "reject" }))];
+            if style & 8 != 0 {
+                v.swap(1, 2);
+            }
+            DV::map(v)
+        }
+    }
+}
+
+fn make_filter(f: u8) -> Box<dyn log4rs::filter::Filter> {
+    match filter_code(f) {
+        FilterCode::Threshold(t) => Box::new(ThresholdFilter::new(t)),
+        FilterCode::At(level, accept) => Box::new(AtFilter { level, accept }),
+    }
+}
+
 pub const CLOCK_FREE: &str = "{l}|{t}|{m}{n}";
 /// further clock-free patterns: what the file says is what the encoder gets (line breaks after `{n}`, the empty
 /// pattern, leading/trailing blanks, nested groups)
@@ -130,7 +252,7 @@ pub fn strategy() -> impl Strategy<Value = Case> {
             let routing = resolve(&raw);
             let names = routing.appenders.clone();
             let kinds: Vec<_> = names.iter().map(|n| kind_strategy(n.clone()).boxed()).collect();
-            (kinds, prop::collection::vec(prop::collection::vec(0u8..6, 0..=2), names.len()), Just((routing, fl, rt, style, refresh, aw, rlw, prepopulate)))
+            (kinds, prop::collection::vec(prop_oneof![4 => prop::collection::vec(0u8..6, 0..=2), 1 => prop::collection::vec(prop_oneof![1 => 0u8..6, 2 => 6u8..16], 1..=4)], names.len()), Just((routing, fl, rt, style, refresh, aw, rlw, prepopulate)))
         })
         .prop_map(|(kinds, filters, (mut routing, _fl, rt, style, refresh, aw, rlw, prepopulate))| {
             // console appenders are declared but only attached to a logger that is off (presence only)
@@ -293,7 +415,7 @@ pub fn app_doc(dir: &str, a: &LApp, style: u64) -> DV {
         }
     }
     if !a.filters.is_empty() {
-        m.push(("filters", DV::Seq(a.filters.iter().enumerate().map(|(i, f)| DV::map(vec![("kind", DV::s("threshold")), ("level", DV::Str(level_word(*f, style >> i)))])).collect())));
+        m.push(("filters", DV::Seq(a.filters.iter().enumerate().map(|(i, f)| filter_doc(*f, style >> i)).collect())));
     }
     DV::map(m)
 }
@@ -380,7 +502,7 @@ pub fn twin_config(dir: &Path, lc: &LC, drop_apps: &[String], drop_filters: &[(S
             if drop_filters.contains(&(a.name.clone(), i)) {
                 continue;
             }
-            ab = ab.filter(Box::new(ThresholdFilter::new(LEVEL_FILTERS[*f as usize % 6])));
+            ab = ab.filter(make_filter(*f));
         }
         b = b.appender(ab.build(a.name.clone(), twin_appender(dir, a)?));
     }
@@ -471,7 +593,7 @@ fn predicted_file(lc: &LC, routing: &LCfg, a: &LApp, probes: &[(String, u8, Stri
             return None;
         }
         let k = routing.route(t, level).get(&a.name).copied().unwrap_or(0);
-        let pass = a.filters.iter().enumerate().all(|(i, f)| dropped_filters.contains(&i) || level <= LEVEL_FILTERS[*f as usize % 6]);
+        let pass = chain_passes(&a.filters, dropped_filters, level);
         if !pass {
             continue;
         }
@@ -578,7 +700,7 @@ fn check_in(base: &Path, case: &Case, obs: &mut Obs) -> CaseResult {
         };
         ensure!(raw.refresh_rate() == lc.refresh.map(|s| std::time::Duration::from_secs(s as u64)), "C14:refresh-rate", "{}: refresh rate {:?}, document says {:?} seconds", what, raw.refresh_rate(), lc.refresh);
         // lossy path = load_config_file
-        let loaded = match catch(|| log4rs::config::load_config_file(&file, Deserializers::default())) {
+        let loaded = match catch(|| log4rs::config::load_config_file(&file, deserializers())) {
             Err(p) => return fail("C14:panic:load", format!("load_config_file panicked on a {}: {}\n{}", what, p, text)),
             Ok(Err(e)) => return fail("C14:valid-document-rejected", format!("load_config_file rejected a {}: {}\n{}", what, e, text)),
             Ok(Ok(c)) => c,
@@ -618,6 +740,7 @@ fn check_in(base: &Path, case: &Case, obs: &mut Obs) -> CaseResult {
     obs.class_if(lc.additive_written.iter().any(|w| !*w), "additive-omitted");
     obs.class_if(lc.prepopulate, "pre-populated-files");
     obs.class_if(lc.apps.iter().any(|a| !a.filters.is_empty()), "threshold-filters");
+    obs.class_if(has_custom_filter(lc), "user-defined-filter-kind(order-sensitive-chain)");
     obs.class_if(lc.refresh.is_some(), "refresh-rate");
     Ok(())
 }
@@ -1027,13 +1150,25 @@ fn check_mutant_in(base: &Path, m: &Mutant, obs: &mut Obs) -> CaseResult {
             let sraw = parse_raw(m.format, &stext).map_err(|e| Failure { sig: "C14:harness".into(), msg: e })?;
             let _ = raw;
             // the library's own strict entry point (what init_raw_config runs before installing the logger)
-            match catch(|| log4rs::config::create_raw_config(sraw).map(|_| ()).map_err(|e| format!("{}", e))) {
+            let custom = has_custom_filter(lc);
+            match catch(|| {
+                if custom {
+                    // create_raw_config knows the default deserializers only; same steps with the user-defined filter kind registered
+                    let (appenders, errors) = sraw.appenders_lossy(&deserializers());
+                    if !errors.is_empty() {
+                        return Err(format!("{}", log4rs::config::InitError::Deserializing(errors)));
+                    }
+                    Config::builder().appenders(appenders).loggers(sraw.loggers()).build(sraw.root()).map(|_| ()).map_err(|e| format!("{}", e))
+                } else {
+                    log4rs::config::create_raw_config(sraw).map(|_| ()).map_err(|e| format!("{}", e))
+                }
+            }) {
                 Err(p) => return fail(panic_sig("load", &p), format!("{}: the strict path panicked while loading: {}\n{}", what, p, text)),
                 Ok(r) => Some(r),
             }
         }
     };
-    let loaded = match catch(|| log4rs::config::load_config_file(&file, Deserializers::default())) {
+    let loaded = match catch(|| log4rs::config::load_config_file(&file, deserializers())) {
         Err(p) => return fail(panic_sig("load", &p), format!("{}: load_config_file panicked: {}\n{}", what, p, text)),
         Ok(r) => r.map_err(|e| e.to_string()),
     };
@@ -1154,7 +1289,7 @@ pub fn replay(part: &str, case: serde_json::Value) -> Option<CaseResult> {
 pub fn meta() -> EvidenceMeta {
     EvidenceMeta {
         level: "exploration",
-        rule: "part documents: logical configurations (cfgtree routing; 1-5 appenders of kinds file / rolling_file (size, time, onstartup triggers; delete or fixed_window rollers incl. .gz and directory patterns; policy kind present/omitted) / console (presence only); encoders pattern (kind key and pattern present/omitted) or json; 0-2 threshold filters per appender; optional refresh_rate; every defaultable key present or omitted; level words in three letter cases) rendered by three hand-written emitters (YAML block/flow mix, JSON, TOML inline/section/sub-section mix) with generated key order; oracle: serde parse and load_config_file succeed, refresh rate and Config accessors equal the logical configuration, and after 15-25 probe records the directory snapshot (clock/thread fields normalised, archives decompressed) equals that of a programmatic twin built with the public builders and documented defaults, for each of the three formats (the configured path may be a symbolic link to a file with another extension: the format is that of the configured name); file appenders are additionally compared with the route()+filter model. part mutants: one mutation of a rendered document (unknown key in document/root/logger/appender/encoder/policy/trigger/roller, wrong-typed value, unknown kind, missing required field, broken filter, dangling appender name, degenerate numerics) in a generated format; oracle by layer: document-level => rejected by both paths; component-level => document parses, strict path reports an error naming exactly that appender, lossy loading returns the configuration without it (references stripped / filter dropped) and its behaviour equals the twin without the broken part; dangling => strict fails naming it, lossy strips; degenerate numerics => no panic at load or while logging. Ten clock-free patterns (empty, line breaks after {n}, blanks, nested groups); unknown keys carry a number, null, empty string, empty list or empty map; probes alternate between records with and without module path/file/line; the strict path is log4rs::config::create_raw_config. non-trivial = >= 2 appender kinds with a defaulted key (documents); any mutation below the document layer (mutants)".into(),
+        rule: "part documents: logical configurations (cfgtree routing; 1-5 appenders of kinds file / rolling_file (size, time, onstartup triggers; delete or fixed_window rollers incl. .gz and directory patterns; policy kind present/omitted) / console (presence only); encoders pattern (kind key and pattern present/omitted) or json; 0-2 threshold filters per appender, or chains of 1-4 filters mixing threshold filters with a user-defined kind registered through Deserializers::insert that accepts/rejects records of one level (order-sensitive); optional refresh_rate; every defaultable key present or omitted; level words in three letter cases) rendered by three hand-written emitters (YAML block/flow mix, JSON, TOML inline/section/sub-section mix) with generated key order; oracle: serde parse and load_config_file succeed, refresh rate and Config accessors equal the logical configuration, and after 15-25 probe records the directory snapshot (clock/thread fields normalised, archives decompressed) equals that of a programmatic twin built with the public builders and documented defaults, for each of the three formats (the configured path may be a symbolic link to a file with another extension: the format is that of the configured name); file appenders are additionally compared with the route()+filter model. part mutants: one mutation of a rendered document (unknown key in document/root/logger/appender/encoder/policy/trigger/roller, wrong-typed value, unknown kind, missing required field, broken filter, dangling appender name, degenerate numerics) in a generated format; oracle by layer: document-level => rejected by both paths; component-level => document parses, strict path reports an error naming exactly that appender, lossy loading returns the configuration without it (references stripped / filter dropped) and its behaviour equals the twin without the broken part; dangling => strict fails naming it, lossy strips; degenerate numerics => no panic at load or while logging. Ten clock-free patterns (empty, line breaks after {n}, blanks, nested groups); unknown keys carry a number, null, empty string, empty list or empty map; probes alternate between records with and without module path/file/line; the strict path is log4rs::config::create_raw_config. non-trivial = >= 2 appender kinds with a defaulted key (documents); any mutation below the document layer (mutants)".into(),
         assumptions: vec![
             "root level default and loggers without a level are not generated (documentation and code disagree / statement silent)".into(),
             "console appenders are declared but attached only to a logger that is off (their bytes are C18's business)".into(),
